@@ -193,6 +193,11 @@ func (node *BinaryExprNode) getTypedExpr() (BoolNode, error) {
 	nodeType := node.left.GetType()
 	if nodeType == NodeTypeAnyType {
 		nodeType = node.right.GetType()
+		// an any-typed symbol (a map entry) may hold an integer or a float: compare numbers as floats, so that a stored
+		// float is not read as a missing integer when the literal happens to be written without a fraction
+		if nodeType == NodeTypeInt64 {
+			nodeType = NodeTypeFloat64
+		}
 	}
 
 	if nodeType == NodeTypeBool {
